@@ -77,7 +77,7 @@ func c12Faults() []c12Fault {
 		c12Fault{"single &", "w = 1 & 2", 6, 7, false},
 	)
 	rt := []string{`1 / 0`, `1 % 0`, `5(1)`, `nofn()`, `"a" ~ "("`, `[1] < 2`, `$nope`, `"a\qb"`, `printf("%s")`, `printf("%d", 1)`, `numv.k = 1`, `arrv["k"] = 1`, `arrv[-9]`, `objv[[1]]`,
-		`match (1) { -1 => 2 }`, `1.2.3`, `"a" ~ /a(/`, `numv !~ /[b-a]/`, `printf("%s" + tailv, 1)`, `printf(headv + " %d", 1, 2)`, `arrv.push()`, `"a".split(1)`, `[printf]`, `numv.k++`,
+		`match (1) { -1 => 2 }`, `1.2.3`, `"a" ~ /a(/`, `numv !~ /[b-a]/`, `printf("%s" + tailv, "a")`, `printf("%s" + tailv, 1)`, `printf(headv + " %d", "a", 2)`, `arrv.push()`, `"a".split(1)`, `[printf]`, `numv.k++`,
 		`wz /= 0`, `numv.k += 1`, `arrv["k"] -= 1`, `objv.k /= 0`, `numv.k *= 2`,
 		// a failing call whose argument calls a function defined on other lines (which calls again)
 		`printf("%d items", lab(1))`, `nofn(lab(2), lab(3))`, `5(lab(1))`, `arrv.push(lab(1), lab(2))`, `"a".split(lab(1))`}
